@@ -334,8 +334,10 @@ def simplify_inequality(
             assumption_str, symbolic_vars
         )
         lhs, rhs = assumption_expression.split("=")
-        lhs = simplify(sympify(lhs))
-        rhs = simplify(sympify(rhs))
+        # the assumption is solved with exact (rational) constants: the rounding errors of floats turn an assumption
+        # that says nothing, e.g. A = (A + B) - B, into a wrong one such as (x ?a) = 0.
+        lhs = simplify(sympify(lhs, rational=True))
+        rhs = simplify(sympify(rhs, rational=True))
         assumption = simplify(Eq(lhs, rhs))
         if not isinstance(assumption, Eq):
             # the assumption holds trivially (or never): there is nothing to substitute.
